@@ -20,6 +20,7 @@ type PropConfig struct {
 	Funcs     []string `json:"funcs"`      // functions whose obligations decide the property
 	Lemmas    []string `json:"lemmas"`     // spec lemmas
 	Engines   []string `json:"engines"`    // extra engines: "effects:<rule>", "ground", "bounded:<name>"
+	Safety    bool     `json:"safety"`     // the property claims absence of panics: safety obligations count
 	Replay    string   `json:"replay"`     // harness name under /verif/replay
 	Level     string   `json:"level"`      // evidence level
 	Trusted   []string `json:"trusted"`    // extra trusted-base entries (paper theorems)
@@ -154,7 +155,33 @@ func runCheck(args []string) int {
 	}
 	groups := map[string]*group{}
 	var order []string
+	relevant := func(o *Obligation) bool {
+		if o.Canary || o.Func == "spec" {
+			return true
+		}
+		switch o.Kind {
+		case "subset", "bind", "effects", "frame", "secrecy", "ground", "bounded":
+			return true
+		}
+		if o.Safety {
+			return cfg.Safety
+		}
+		if len(o.Props) == 0 {
+			return true
+		}
+		for _, p := range o.Props {
+			if p == prop {
+				return true
+			}
+		}
+		return false
+	}
+	nOther := 0
 	for _, o := range all {
+		if !relevant(o) {
+			nOther++
+			continue
+		}
 		g := groups[o.ID()]
 		if g == nil {
 			g = &group{id: o.ID(), ok: true}
@@ -339,7 +366,8 @@ func runCheck(args []string) int {
 			"samples":      samples,
 			"functions_under_contract": cfg.Funcs,
 			"lemmas":       cfg.Lemmas,
-			"queries":      len(all),
+			"queries":      len(all) - nOther,
+			"obligations_of_other_properties_not_counted": nOther,
 			"by_backend":   byBackend,
 			"solver_time_s": round3(solverTime),
 			"vacuity": map[string]interface{}{"canaries": nCanary, "note": "each canary asserts `false` at a reachable point (after requires, after loop invariants, at returns) and must NOT be provable"},
@@ -368,6 +396,24 @@ func runCheck(args []string) int {
 	}
 	for _, l := range lines {
 		fmt.Println(l)
+	}
+	if os.Getenv("GOVC_SLOW") != "" {
+		type sl struct {
+			id string
+			t  float64
+			s  string
+		}
+		var sls []sl
+		for _, id := range order {
+			g := groups[id]
+			for _, o := range g.obs {
+				sls = append(sls, sl{id, o.Time, o.Solver})
+			}
+		}
+		sort.Slice(sls, func(i, j int) bool { return sls[i].t > sls[j].t })
+		for i := 0; i < 8 && i < len(sls); i++ {
+			fmt.Printf("  slow: %.2fs %s %s\n", sls[i].t, sls[i].s, sls[i].id)
+		}
 	}
 	fmt.Printf("%s %s: %d obligations, %d discharged, %d canaries, %d violation(s), %.1fs\n", prop, *tier, nObl, nDis, nCanary, violations, time.Since(t0).Seconds())
 	if violations > 0 {
